@@ -141,7 +141,9 @@ CHECKS = {
              "parameters must give identical volumes for every arc and store at every timestep (every third set-up with travel-time / "
              "decaying arcs and ephemeral streams, configurations without decay and with all-zero qualities). Queue tanks: any two with "
              "the same dimensions and volumes give the same volumes under every operation sequence WHETHER OR NOT THEY DECAY (QTankErasure.v); "
-             "the volumes of the treatment step and of IHACRES on a pervious surface depend on volumes, hydraulic parameters and weather only (NodeErasure.v).",
+             "the volumes of the treatment step and of IHACRES on a pervious surface depend on volumes, hydraulic parameters and weather only (NodeErasure.v). "
+             "The queue-tank models of those theorems are tied to the code in this check (families qtank, altarc, tarea, incl. reinit) and a paired monitor runs "
+             "Sewer / QueueGroundwater histories under two pollutant configurations (decays vs none).",
         design="5/C20", tech="Coq proof (relational erasure lemmas) + paired exact whole-model runs (partial)",
         note=NOTE),
     "C13": dict(
@@ -149,7 +151,8 @@ CHECKS = {
              "reached, results concatenated, for any step function whose whole state is its argument) and well-definedness of "
              "the river order as a function of insertion order alone (model compared exactly with the implementation on random "
              "river graphs). Interpreter-level behaviour is reached only by the monitor: bit-exact reruns, every 2-chunk split, "
-             "fresh interpreters under several hash seeds, contamination by another model in the same process. Two genuine "
+             "fresh interpreters under several hash seeds, contamination by another model in the same process. Crop calendars "
+             "(spring- and autumn-sown, leap years) over 7-10 months cut at random days. Two genuine "
              "defects (hash-seed dependent river order) were repaired with fix: commits.",
         design="5/C13", tech="Coq proof of the chunking / order-determinism core + fresh-interpreter differential reruns of the implementation (partial)",
         note=NOTE),
@@ -160,7 +163,8 @@ CHECKS = {
              "levels strictly decrease downstream. Tie: exact river-order correspondence on random acyclic graphs. The "
              "call-sequence clauses (orchestration order, once per node, close-out, recorded flow = delivered flow) are checked "
              "by an event-log monitor on the implementation (partial for that part), river networks with travel-time arcs below junctions "
-             "(pushed once per tributary and timestep) included.",
+             "(pushed once per tributary and timestep) included. Every fourth river network is not built in code but loaded as a scenario "
+             "(Model.load with nodes / arcs / dates overrides) on top of the saved configuration of another network.",
         design="5/C16", tech="Coq proof (relaxation fixpoint + stable sort) over a hand-written model + exact river-order correspondence + event-log monitor",
         note=NOTE),
     "C07": dict(
@@ -170,7 +174,8 @@ CHECKS = {
              "river without upstream neighbours (minimum flow subtracted). Other node classes: check -> request probes on every "
              "arc of random whole models after real request histories. Two genuine defects (stale QueueGroundwater push check, "
              "Catchment push check echoing the offer) were repaired with fix: commits. WWTW: the sewer push check is honest in every "
-             "state (theorem over Wtw.v, family wtw); Distribution with leakage: Leak.v, family leak, model witness of the open finding.",
+             "state (theorem over Wtw.v, family wtw); Distribution with leakage: Leak.v, family leak, model witness of the open finding. "
+             "Garden irrigation (the check / request pair served by a surface): float monitor on real Land / GardenSurface / ResidentialDemand objects.",
         design="5/C07", tech="Coq proof (min/max case analysis over store and arc models) + exact correspondence + check->request probes on whole models (partial)",
         note=NOTE),
     "C08": dict(
